@@ -17,6 +17,7 @@ from mc.lexer import LexError, lex
 
 from pypika_tortoise import AliasedQuery, Field, Query, Table
 from pypika_tortoise import functions as FN
+from pypika_tortoise import analytics as AN
 from pypika_tortoise.enums import JoinType
 from pypika_tortoise.terms import Case, Criterion, SystemTimeValue, Tuple
 from mc import zoo as _zoo
@@ -37,6 +38,15 @@ class Src:
         self.shape, self.key = shape, key
         if shape == "plain":
             self.obj = Table(key)
+            self.aliased = False
+        elif shape in ("plain_twin", "schema_twin"):
+            # the statement's source and the table the columns were created from are equal tables built separately - the second
+            # one handed out by another dialect's query class (Table.__eq__ does not look at the class)
+            other = fp.QCLS["generic"] if Q is fp.QCLS["mysql"] else fp.QCLS["mysql"]
+            if shape == "plain_twin":
+                self.obj, self.ftab = Table(key), other.Table(key)
+            else:
+                self.obj, self.ftab = Table(key, schema="sch"), other.Table(key, schema="sch")
             self.aliased = False
         elif shape == "aliased":
             # a table that was in use (hashed, compared, printed) before it was renamed: nothing memoised on the un-aliased
@@ -84,7 +94,7 @@ class Src:
         self.is_subquery = shape in ("subquery", "subquery_auto", "subquery_auto_nested")
 
     def f(self, role):
-        return Field("%s__%s" % (self.key, role), table=self.obj)
+        return Field("%s__%s" % (self.key, role), table=getattr(self, "ftab", None) or self.obj)
 
     def display(self):
         return self.obj.alias if getattr(self.obj, "alias", None) else self.obj._table_name
@@ -100,6 +110,16 @@ def select_cases():
                     if foreign and n > 1:
                         continue
                     yield {"k": "select", "shapes": list(shapes), "combine": combine, "foreign": foreign}
+    for tw in ("plain_twin", "schema_twin"):
+        yield {"k": "select", "shapes": [tw], "combine": "from", "foreign": False}
+        for sh2 in ("plain", "aliased", "subquery"):
+            for combine in ("join", "from_list", "join_using"):
+                yield {"k": "select", "shapes": [tw, sh2], "combine": combine, "foreign": False}
+                yield {"k": "select", "shapes": [sh2, tw], "combine": combine, "foreign": False}
+    # a join whose ON criterion mentions only sources that are already there (and constants)
+    for sh in ("plain", "aliased", "subquery", "schema"):
+        for sh2 in ("plain", "aliased", "subquery"):
+            yield {"k": "select", "shapes": [sh, sh2], "combine": "join_on_base_only", "foreign": False}
     # several automatically named subqueries in one statement (plain and nested), in every mix of from_() and join()
     AUTO = ("subquery_auto", "subquery_auto_nested", "setop_auto")
     for n in (2, 3):
@@ -146,6 +166,9 @@ def select_cases():
 
 
 def dml_cases():
+    for sh in ("plain", "aliased", "schema", "schema_aliased"):
+        for api in ("select", "update", "insert"):
+            yield {"k": "table_api", "shapes": [sh], "api": api}
     for sh in ("plain", "aliased", "schema"):
         yield {"k": "insert", "shapes": [sh]}
         yield {"k": "insert_select", "shapes": [sh, "plain"]}
@@ -236,6 +259,9 @@ def build(case, Q):
             q = q.from_(srcs[1].obj)
             for s in srcs[2:]:
                 q = q.join(s.obj, JoinType.left).on(a.f("on") == s.f("on"))
+        elif case["combine"] == "join_on_base_only":
+            for i, s in enumerate(srcs[1:]):
+                q = q.join(s.obj, JoinType.left).on(a.f("on") > 100)
         elif case["combine"] in ("join", "join_using"):
             for i, s in enumerate(srcs[1:]):
                 j = q.join(s.obj, JoinType.left if i else JoinType.inner)
@@ -245,6 +271,9 @@ def build(case, Q):
                     q = j.using("shared__using")
         multi = len(srcs) > 1 or a.is_subquery or case.get("foreign")
         sel = [s.f("sel") for s in srcs] + [(srcs[-1].f("selx") + 1).as_("x1"), FN.Count(srcs[0].f("selc")).as_("n1")]
+        # a window function: argument, PARTITION BY (a column and expressions over columns), ORDER BY (an expression)
+        sel.append(AN.Sum(srcs[0].f("wsum")).over(srcs[-1].f("wpart"), FN.Upper(srcs[0].f("wpartfn")), srcs[-1].f("wparta") + 1)
+                   .orderby(srcs[0].f("word") * 2, srcs[-1].f("wordf")).as_("w1"))
         q = q.select(*sel)
         for s in srcs:
             q = q.where(s.f("whr") > 1)
@@ -259,7 +288,8 @@ def build(case, Q):
             q = q.distinct_on(*[s.f("don") for s in srcs])
             expect(srcs, ["don"], multi)
         expect(srcs[-1:], ["selx", "hav"], multi)
-        expect(srcs[:1], ["selc"], multi)
+        expect(srcs[:1], ["selc", "wsum", "wpartfn", "word"], multi)
+        expect(srcs[-1:], ["wpart", "wparta", "wordf"], multi)
         exp["shared__using"] = (False, None)
         return q, exp
     if k == "call_order":
@@ -416,8 +446,57 @@ def build(case, Q):
     return q, exp
 
 
+def run_table_api(case, res):
+    """Table.select() / .update() / .insert(): the statement the table starts itself is the statement its query class starts with
+    that table (same source, same qualifiers)"""
+    d, sh, api = case["d"], case["shapes"][0], case["api"]
+    Q = fp.QCLS[d]
+    key = "s1"
+
+    def mk():
+        if sh == "plain":
+            return Table(key, query_cls=Q)
+        if sh == "aliased":
+            return Table("base_" + key, alias=key, query_cls=Q)
+        if sh == "schema":
+            return Table(key, schema="sch", query_cls=Q)
+        return Table("base_" + key, schema=("db", "sch"), alias=key, query_cls=Q)
+
+    def cont(q, t):
+        if api == "select":
+            return q.where(t.field("s1__whr") > 1).orderby(t.field("s1__ord"))
+        if api == "update":
+            return q.set(t.field("s1__set"), t.field("s1__val") + 1).where(t.field("s1__whr") > 1)
+        return q
+
+    res.nontrivial = 1
+    res.states.append(h64(repr((d, sh, api))))
+    try:
+        t1, t2 = mk(), mk()
+        if api == "select":
+            a, b = cont(t1.select(t1.field("s1__sel")), t1), cont(Q.from_(t2).select(t2.field("s1__sel")), t2)
+        elif api == "update":
+            a, b = cont(t1.update(), t1), cont(Q.update(t2), t2)
+        else:
+            a, b = t1.insert(1, t1.field("s1__val")), Q.into(t2).insert(1, t2.field("s1__val"))
+        ra = [prog.render(a, d, param=p_)[0] for p_ in (False, True)]
+        rb = [prog.render(b, d, param=p_)[0] for p_ in (False, True)]
+    except Exception as e:
+        res.violate("C11|table_api|%s|raises|%s" % (api, type(e).__name__), "building / rendering through the table's own method raised", case=case, error=str(e)[:200])
+        return
+    res.transitions += 4
+    res.outcomes.append(h64(ra[0]))
+    if ra != rb:
+        res.violate("C11|table_api|%s|differs-from-query-class-statement" % api,
+                    "the statement started by the table's own method is not the statement its query class starts with this table "
+                    "(source or qualifiers differ)", case=case, via_table=ra[0], via_query_class=rb[0])
+
+
 def run_case(case):
     res = Result()
+    if case["k"] == "table_api":
+        run_table_api(case, res)
+        return res
     d = case["d"]
     Q = fp.QCLS[d]
     lexd = "sqlite" if d == "generic" else d
